@@ -1,0 +1,119 @@
+//! Verification-build primitives (`--cfg excsn_fibre_verif --cfg
+//! excsn_fibre_verif_shuttle`): the same export list as `real.rs` / `mocked.rs`,
+//! backed by the `shuttle` controlled scheduler so an external harness owns the
+//! thread interleaving (every atomic access and lock is a scheduling point) and
+//! the clock. Never compiled in normal builds.
+//!
+//! Time is virtual: `Instant` reads a per-execution counter, and a timed park
+//! yields to the scheduler once and then lets the whole requested duration
+//! elapse - i.e. "the timeout fires after an arbitrary amount of progress by
+//! the other threads, unless the awaited condition is observed first". A plain
+//! `park` blocks until `unpark`; if every thread is blocked the scheduler
+//! reports a deadlock.
+
+pub(crate) use shuttle::sync::atomic::{
+  fence, AtomicBool, AtomicPtr, AtomicU8, AtomicU32, AtomicU64, AtomicUsize, Ordering,
+};
+
+pub(crate) use shuttle::hint;
+
+/// Collapse spin budgets: parking is the path the harness wants to explore.
+pub(crate) const IS_LOOM: bool = true;
+
+pub(crate) use std::sync::Arc;
+
+pub(crate) use self::thread::Thread;
+
+std::thread_local! {
+  /// Virtual nanoseconds since the start of the current execution. All tasks of
+  /// one shuttle execution run on the OS thread that called the runner.
+  static VIRTUAL_NANOS: std::cell::Cell<u64> = const { std::cell::Cell::new(0) };
+}
+
+/// Reset the virtual clock (the harness calls this at the start of an execution).
+pub fn reset_virtual_clock() {
+  VIRTUAL_NANOS.with(|c| c.set(0));
+}
+
+fn advance_virtual_clock(d: std::time::Duration) {
+  let n = u64::try_from(d.as_nanos()).unwrap_or(u64::MAX / 4).min(u64::MAX / 4);
+  VIRTUAL_NANOS.with(|c| c.set(c.get().saturating_add(n.max(1))));
+}
+
+/// Virtual stand-in for `std::time::Instant` (only what the channels use).
+#[derive(Clone, Copy, Debug, PartialEq, Eq, PartialOrd, Ord)]
+pub(crate) struct Instant(std::time::Duration);
+
+#[allow(dead_code)]
+impl Instant {
+  pub(crate) fn now() -> Self {
+    Instant(std::time::Duration::from_nanos(VIRTUAL_NANOS.with(|c| c.get())))
+  }
+  pub(crate) fn checked_add(&self, d: std::time::Duration) -> Option<Instant> {
+    self.0.checked_add(d).map(Instant)
+  }
+  pub(crate) fn elapsed(&self) -> std::time::Duration {
+    Instant::now().0.saturating_sub(self.0)
+  }
+  pub(crate) fn duration_since(&self, earlier: Instant) -> std::time::Duration {
+    self.0.saturating_sub(earlier.0)
+  }
+}
+
+impl std::ops::Sub<Instant> for Instant {
+  type Output = std::time::Duration;
+  fn sub(self, rhs: Instant) -> std::time::Duration {
+    self.0.saturating_sub(rhs.0)
+  }
+}
+
+impl std::ops::Add<std::time::Duration> for Instant {
+  type Output = Instant;
+  fn add(self, rhs: std::time::Duration) -> Instant {
+    Instant(self.0.saturating_add(rhs))
+  }
+}
+
+pub(crate) mod thread {
+  pub use shuttle::thread::*;
+
+  use std::time::Duration;
+
+  /// See the module docs: yield once, then the timeout has elapsed.
+  pub fn park_timeout(duration: Duration) {
+    shuttle::thread::yield_now();
+    super::advance_virtual_clock(duration);
+  }
+
+  pub fn sleep(duration: Duration) {
+    shuttle::thread::yield_now();
+    super::advance_virtual_clock(duration);
+  }
+}
+
+/// Shuttle `Mutex` wearing parking_lot's API (same shape as `mocked.rs`).
+#[derive(Debug)]
+pub(crate) struct Mutex<T>(shuttle::sync::Mutex<T>);
+
+#[allow(dead_code)]
+impl<T> Mutex<T> {
+  #[inline]
+  pub(crate) fn new(value: T) -> Self {
+    Self(shuttle::sync::Mutex::new(value))
+  }
+
+  #[inline]
+  pub(crate) fn lock(&self) -> shuttle::sync::MutexGuard<'_, T> {
+    self.0.lock().unwrap()
+  }
+
+  #[inline]
+  pub(crate) fn try_lock(&self) -> Option<shuttle::sync::MutexGuard<'_, T>> {
+    self.0.try_lock().ok()
+  }
+
+  #[inline]
+  pub(crate) fn get_mut(&mut self) -> &mut T {
+    self.0.get_mut().unwrap()
+  }
+}
